@@ -19,7 +19,7 @@ STEPS = [
     dict(flavor="asan", harness="h_bev", args=["--mode", "stream", "--arg", "pth"], cases=dict(quick=64, thorough=120), seed_off=101,
          timeout=dict(quick=600, thorough=7200), env=dict(ASAN_OPTIONS=ASAN)),
 ]
-REQUIRED = ["cases", "sessions_with_delivery", "sessions_with_reverse_delivery", "base_tcp", "base_unix", "base_pair",
+REQUIRED = ["cases", "late_tail_written_while_reader_paused", "sessions_with_delivery", "sessions_with_reverse_delivery", "base_tcp", "base_unix", "base_pair",
             "tls_openssl_socket", "tls_openssl_over_sockbev", "tls_openssl_over_pair",
             "tls_mbedtls_socket", "tls_mbedtls_over_sockbev", "tls_mbedtls_over_pair",
             "filters_1", "filters_2", "filters_3", "filter_null", "filter_pass", "filter_chunk", "filter_xor", "filter_framing",
